@@ -202,8 +202,10 @@ class S3Basin(Basin):
     def _load_dataset(self, location, **kwargs):
         try:
             h5file = RTDC_S3(location, **kwargs)
-        except botocore.exceptions.BotoCoreError as exc:
-            # e.g. connection lost after the availability check
+        except (botocore.exceptions.BotoCoreError,
+                botocore.exceptions.ClientError) as exc:
+            # e.g. connection lost or object removed after the
+            # availability check
             raise ConnectionError(
                 f"Could not load S3 basin '{location}'") from exc
         return h5file
